@@ -191,8 +191,9 @@ def check_copy_family(rep, scr, tier, seed):
         oi, om = run_cases(rep, scr, impls[v], md, consts[v], cases, v)
         judge(rep, cases, oi, om, consts[v], v, oracle_for(pid, consts[v]), projection_for(pid, consts[v]), None)
     if pid == 'C02': c02_query_extents(rep, scr, impls['O1'], md, consts['O1'], tier, seed)
-    if pid in ('C01', 'C03', 'C04', 'C05', 'C06'):
+    if pid in ('C01', 'C03', 'C04', 'C05', 'C06', 'C08'):
         for v in variants: getenv_batch(rep, scr, impls[v], md, consts[v], pid, v, tier, seed)
+    if pid in ('C01', 'C02'): sort_bounds_batch(rep, scr, impls['O1'], consts['O1'], pid, tier, seed)
     if pid == 'C05': printf_report_batch(rep, scr, impls['O1'], consts['O1'], tier, seed); sort_report_batch(rep, scr, impls['O1'], consts['O1'], tier, seed); query_report_batch(rep, scr, impls['O1'], consts['O1'], tier, seed)
     if pid in ('C01', 'C02', 'C03', 'C04', 'C05', 'C06', 'C07', 'C08'):
         for v in variants: sweep_batch(rep, scr, impls[v], consts[v], pid, v, tier, seed, md)
@@ -334,6 +335,38 @@ def query_report_batch(rep, scr, impl, consts, tier, seed):
             if kid: rep.known_hits[kid] = rep.known_hits.get(kid, 0) + 1
             else: rep.violation('%s: %s' % (c.func, t), {'key': (c.func, kind, 'query-report'), 'property': 'C05', 'function': c.func, 'failure': kind, 'case': c.to_json(), 'case_line': c.line(), 'impl_outcome': a.raw, 'what': t})
 
+def sort_bounds_batch(rep, scr, impl, consts, pid, tier, seed):
+    """C01/C02 for qsort_s and bsearch_s: the array exactly fills its object, flush against an inaccessible page (and a second time
+    with the page in front), element sizes around the 256-byte chunk of the rotation; any access outside nmemb*size bytes faults"""
+    import random
+    rng = random.Random(seed + 23); cs = []; k = [0]
+    sizes = (1, 3, 4, 8, 255, 256, 257, 300, 511, 513) + ((700, 1000) if tier == 'thorough' else ())
+    for size in sizes:
+        for nm in (0, 1, 2, 3, 5, 9, 17) + ((40,) if size <= 8 or tier == 'thorough' else ()):
+            for mode in ('R', 'L'):
+                for order in ('random', 'descending'):
+                    keys = [rng.randrange(256) for _ in range(nm)] if order == 'random' else list(range(nm, 0, -1))
+                    data = b''.join(bytes([kk]) + bytes(rng.randrange(256) for _ in range(size - 1)) for kk in keys) or b'\0'
+                    k[0] += 1
+                    cs.append(vlib.Case('sb%d' % k[0], 'qsort_s', [(mode, data)], [(0, 0), nm, size, UNK], dict(cls='sort-bounds', func='qsort_s', nmemb=nm, size=size, mode=mode, order=order)))
+    cf = '%s/cases_sortbounds.txt' % scr.dir
+    with open(cf, 'w') as f:
+        for c in cs: f.write(c.line() + '\n')
+    oi = vlib.run_impl(impl, cf, cs)
+    for c in cs:
+        a = oi.get(c.id); m = c.meta
+        rep.evals += 1; rep.count('qsort_s/sort-bounds/%s' % ('chunked' if m['size'] > 256 else 'single-chunk'))
+        if a is None: continue
+        fails = []
+        if a.fault != '-': fails.append(('fault', 'faulted at %s: an access outside the %d x %d bytes of the array' % (a.fault, m['nmemb'], m['size'])))
+        else:
+            rep.nontrivial.add(('qsort_s', 'sort-bounds', m['size'], m['nmemb'], a.ret))
+            rv, bad = (a.ret.split(',') + ['0'])[:2]
+            if bad != '0': fails.append(('comparator-outside', 'the comparator was handed a pointer that is not an element of the array'))
+        for kind, t in fails:
+            rep.violation('qsort_s(nmemb=%d, size=%d, %s, array %s): %s' % (m['nmemb'], m['size'], m['order'], 'flush against the page behind it' if m['mode'] == 'R' else 'directly behind an inaccessible page', t),
+                          {'key': ('qsort_s', kind, 'sort-bounds'), 'property': pid, 'function': 'qsort_s', 'failure': kind, 'case': c.to_json(), 'case_line': c.line(), 'impl_outcome': a.raw, 'what': t})
+
 def getenv_batch(rep, scr, impl, md, consts, pid, var, tier, seed):
     """getenv_s: value lengths around dmax, unset variable, null arguments; model (libc getenv as an oracle) and reference"""
     import random
@@ -379,6 +412,9 @@ def getenv_batch(rep, scr, impl, md, consts, pid, var, tier, seed):
                 if rc not in (0, -1) and hs != [('S', rc)]: fails.append(('handler-mismatch', 'returned %d but handler invocations were %s' % (rc, hs)))
                 v = m['value']
                 if v is not None and not m['name_null'] and usable and len(v) >= dmax and rc == 0: fails.append(('violation-not-reported', 'the value (%d characters) does not fit dmax %d but the call returned EOK' % (len(v), dmax)))
+            if pid == 'C08' and rc == 0 and usable and slack and m['value'] is not None:
+                t0 = bytes(dest[:dmax]).find(b'\0')
+                if t0 >= 0 and any(dest[t0:dmax]): fails.append(('stale-slack', 'EOK, terminator at %d, but dest[%d..%d) is not all zero' % (t0, t0 + 1, dmax)))
             if pid == 'C06' and rc == 0:
                 v = m['value']
                 if v is None: fails.append(('eok-but-invalid', 'EOK although the variable is not set'))
@@ -1592,6 +1628,14 @@ def gen_uni_cases(seed, tier, g, rng):
     for t in trip: out.append(('hangul-lvt', list(t)))
     for l in Ls:
         for v in Vs: out.append(('hangul-lv', [l, v]))
+    # the edges of the three jamo ranges (one below the first, the first, the last, one above the last) in every combination,
+    # alone and behind a precomposed LV / LVT syllable: U+11A7 (= TBase itself) and U+11C3 must never compose
+    for l in (0x10ff, 0x1100, 0x1112, 0x1113):
+        for v in (0x1160, 0x1161, 0x1175, 0x1176):
+            out.append(('hangul-edge', [l, v]))
+            for t in (0x11a7, 0x11a8, 0x11c2, 0x11c3): out.append(('hangul-edge', [l, v, t]))
+    for syl in (0xac00, 0xac1c, 0xd788, 0xac01, 0xd7a3):
+        for t in (0x11a7, 0x11a8, 0x11c2, 0x11c3, 0x1161, 0x1175): out.append(('hangul-edge', [syl, t])); out.append(('hangul-edge', [0x61, syl, t, 0x62]))
     # blocked composition: starter, marks that do not combine with it, then a second character that would
     marks = sorted(g['rC'])
     starters2 = [(a, b) for (a, b) in g['rP'] if ud.combining(chr(b)) == 0] + [(l, v) for l in (0x1100, 0x1112) for v in (0x1161, 0x1175)] + [(0xac00, 0x11a8), (0xd788, 0x11c2)]
@@ -1692,6 +1736,12 @@ def check_C17(rep, scr, tier, seed):
     for cp, (a, r, n, chars) in sorted(g['F'].items()):
         if cp == 0: continue
         i += 1; cases.append(mk(i, 'wcsfc_s', [cp], -1, 24, 'fold-single'))
+    # folding of characters that do not fold but decompose, alone and behind one or two ASCII letters (ample destination; the
+    # results are the reference for the tight destinations of the second pass)
+    dk = sorted(cp for cp in g['D'] if cp not in g['F'] and U.assigned14(cp))
+    for cp in rng.sample(dk, min(len(dk), 120 if tier == 'quick' else 1500)):
+        for pre in ([], [0x61], [0x41, 0x62]):
+            i += 1; cases.append(mk(i, 'wcsfc_s', pre + [cp], -1, 24, 'fold-decomp'))
     cf = '%s/cases_uni.txt' % scr.dir
     with open(cf, 'w') as f:
         for c in cases: f.write(c.line() + '\n')
@@ -1709,7 +1759,7 @@ def check_C17(rep, scr, tier, seed):
             mo[idd] = [[int(x, 16) for x in part.split()] for part in parts]
     else:
         rep.violation('the normalisation model could not be built from the regenerated tables', {'key': 'unimodel', 'property': 'C17', 'no_failing_input': True, 'log': open(vlib.COQ + '/make_uni.log').read()[-2000:] if os.path.exists(vlib.COQ + '/make_uni.log') else ''})
-    second = []
+    second = []; foldamp = []; foldamp_skipped = [0]
     def fail(c, a, kind, text):
         kid = known.classify(rep, c, a, kind, 'O1', consts)
         if kid: rep.known_hits[kid] = rep.known_hits.get(kid, 0) + 1
@@ -1733,6 +1783,11 @@ def check_C17(rep, scr, tier, seed):
             continue
         if c.func == 'wcsfc_s':
             if rc != 0: fail(c, a, 'fold-rejected', 'folding a single assigned character returned %d' % rc)
+            elif got is None: fail(c, a, 'unterminated', 'EOK but dest is not terminated within dmax')
+            else:
+                if lenp != len(got): fail(c, a, 'fold-len', 'reported length %d but the result has %d characters' % (lenp, len(got)))
+                if cls == 'fold-decomp' or (cls == 'fold-single' and (c.meta['s'][0] >= 0xc0 and len(foldamp) % 7 == 0 or len(got) > 1)): foldamp.append((c, got))
+                else: foldamp_skipped[0] += 1
             continue
         if rc != 0 and m['dmax'] < len(ref(m['s'], 0)) + 5 and rc == 406: rep.count('wcsnorm_s/tight dmax: ESNOSPC accepted'); continue
         if rc != 0: fail(c, a, 'norm-rejected', 'valid string with dmax %d (NFD length %d) returned %d' % (m['dmax'], len(ref(m['s'], 0)), rc)); continue
@@ -1751,12 +1806,31 @@ def check_C17(rep, scr, tier, seed):
     c2 = []
     for j, (c, got) in enumerate(second):
         c2.append(mk(10**7 + j, 'wcsnorm_s', got, c.meta['mode'], c.meta['dmax'], 'again'))
+    # wcsfc_s with every destination size from 1 to ample: a size that is accepted must give the same text and length as the ample
+    # destination did; the only other outcome allowed is ESNOSPC with nothing outside dest touched
+    if tier == 'quick' and len(foldamp) > 500: foldamp = rng.sample(foldamp, 500)
+    for j, (c, got) in enumerate(foldamp):
+        for dm in range(1, len(got) + 7):
+            x = mk(2 * 10**7 + 100 * j + dm, 'wcsfc_s', c.meta['s'], -1, dm, 'fold-tight'); x.meta['ample'] = got; c2.append(x)
     cf2 = '%s/cases_uni2.txt' % scr.dir
     with open(cf2, 'w') as f:
         for c in c2: f.write(c.line() + '\n')
     oi2 = vlib.run_impl(impls['O1'], cf2, c2, locale='C.UTF-8')
     for c in c2:
-        a = oi2.get(c.id); rep.evals += 1; rep.count('wcsnorm_s/again/%s' % {0: 'NFD', 1: 'NFC'}[c.meta['mode']])
+        a = oi2.get(c.id); rep.evals += 1
+        if c.func == 'wcsfc_s':
+            rep.count('wcsfc_s/fold-tight/%s' % ('fits' if c.meta['dmax'] > len(c.meta['ample']) else 'too small'))
+            if a is None: continue
+            if a.fault != '-': fail(c, a, 'fault', 'faulted at %s' % a.fault); continue
+            rc = int(a.ret); dest = fam_copy.dec(a.blocks[1], 4); got = dest[:dest.index(0)] if 0 in dest else None; lenp = int.from_bytes(a.blocks[0][:8], 'little')
+            rep.nontrivial.add(('wcsfc_s', 'fold-tight', rc, c.meta['dmax'] - len(c.meta['ample'])))
+            if rc == 0:
+                if got != c.meta['ample']: fail(c, a, 'fold-tight-wrong', 'dmax %d: EOK with result %s, an ample destination gives %s' % (c.meta['dmax'], got and ['%04X' % x for x in got], ['%04X' % x for x in c.meta['ample']]))
+                elif lenp != len(got): fail(c, a, 'fold-len', 'dmax %d: reported length %d but the result has %d characters' % (c.meta['dmax'], lenp, len(got)))
+            elif rc != 406: fail(c, a, 'fold-rejected', 'dmax %d: returned %d (neither EOK nor ESNOSPC) for a valid string' % (c.meta['dmax'], rc))
+            elif c.meta['dmax'] >= len(c.meta['ample']) + 5: fail(c, a, 'fold-rejected', 'dmax %d leaves the 4 spare elements the decomposition step asks for (result %d characters) but the call returned ESNOSPC' % (c.meta['dmax'], len(c.meta['ample'])))
+            continue
+        rep.count('wcsnorm_s/again/%s' % {0: 'NFD', 1: 'NFC'}[c.meta['mode']])
         if a is None: continue
         if a.fault != '-': fail(c, a, 'fault', 'faulted at %s' % a.fault); continue
         dest = fam_copy.dec(a.blocks[1], 4); got = dest[:dest.index(0)] if 0 in dest else None
@@ -1819,7 +1893,8 @@ def c11_gen_dir(rng, classes, boundary=False):
     return Dir(flags, width, prec, length, conv, args, kinds)
 
 C11_FLOAT_VALUES = [0.0, -0.0, 1.0, -1.0, 0.5, 2.5, 0.999, 0.9999996, -3.96, 123.456, 1e-5, 123456789.0, 999999999.9, 1e9, 1.5e9, 1e300, 5e-324,
-                    float('inf'), float('-inf'), float('nan'), 3.141592653589793, 99.99, 1.9999996, 1e6, 999999.5, 0.1]
+                    float('inf'), float('-inf'), float('nan'), 3.141592653589793, 99.99, 1.9999996, 1e6, 999999.5, 0.1,
+                    1e-150, 2.5e-200, 2.2250738585072014e-308, 7.25e-99, 3.5e-100, 1.25e99, 6.5e100]   # normal values around the two/three-digit exponent boundary
 def c11_float_grid():
     g = []
     for conv in 'fFeEgG':
